@@ -1,5 +1,6 @@
 import NbioVerif.Model.Rfc6455
 import NbioVerif.Model.WsMask
+import NbioVerif.Model.WsTrunc
 import NbioVerif.DrvCommon
 /-! wsdrv: runs the websocket model on the annotated ops of `hws exec` (see harness/cmd/hws/main.go) -/
 open Ws Drv
@@ -141,6 +142,14 @@ partial def loop (h : IO.FS.Stream) (d : DS) : IO Unit := do
                      readLimit := 0, maxFrame := (f "maxframe").toNat!, isClient := false }
     IO.println "ok"; loop h { mode := "rt", g, gc := { g with isClient := true } }
   | "C" :: "mask" :: _ => IO.println "ok"; loop h { mode := "mask" }
+  | "C" :: "utf8" :: _ => IO.println "ok"; loop h { mode := "utf8" }
+  | "C" :: "trunc" :: _ => IO.println "ok"; loop h { mode := "trunc" }
+  | "T" :: sp :: _ =>
+    if d.mode != "trunc" then IO.println "bad-op"; loop h d else
+    IO.println s!"R {short (twWrites [] ((sp.splitOn ",").map bytesOf)).1}"; loop h d
+  | "U" :: sp :: _ =>
+    if d.mode != "utf8" then IO.println "bad-op"; loop h d else
+    IO.println s!"R {if utf8Valid (bytesOf sp) then 1 else 0}"; loop h d
   | "M" :: key :: sp :: _ =>
     if d.mode != "mask" then IO.println "bad-op"; loop h d else
     IO.println s!"R {short (maskFast (unhex key) (bytesOf sp))}"; loop h d
@@ -149,7 +158,7 @@ partial def loop (h : IO.FS.Stream) (d : DS) : IO Unit := do
     let data := bytesOf sp
     let d := { d with all := data :: d.all }
     if d.dead then IO.println "dead"; loop h d else
-    let r := parse d.g (mkEnv ws "keys" d.s.nwrites) d.s data
+    let r := parse d.g (mkEnv ws "keys" d.s.k.nwrites) d.s data
     match r.err with
     | none => IO.println s!"R ok cache={r.s.cache.length} msglen={msgLen r.s} {showActs r.acts}"; loop h { d with s := r.s }
     | some e =>
@@ -157,10 +166,10 @@ partial def loop (h : IO.FS.Stream) (d : DS) : IO Unit := do
       loop h { d with s := r.s, dead := true }
   | "X" :: op :: sp :: _ =>
     if d.mode != "recv" then IO.println "bad-op"; loop h d else
-    let (s, r) := appWrite d.g (mkEnv ws "keys" d.s.nwrites) d.s op.toNat! (bytesOf sp)
+    let (k, r) := appWrite d.g (mkEnv ws "keys" d.s.k.nwrites) d.s.k op.toNat! (bytesOf sp)
     match r with
-    | .ok wr => IO.println s!"X ok {showActs (wr.map Act.write)}"; loop h { d with s }
-    | .error e => IO.println s!"X err={e.code} []"; loop h { d with s }
+    | .ok wr => IO.println s!"X ok {showActs (wr.map Act.write)}"; loop h { d with s := { d.s with k } }
+    | .error e => IO.println s!"X err={e.code} []"; loop h { d with s := { d.s with k } }
   | "E" :: _ =>
     if d.mode != "recv" then IO.println "bad-op"; loop h d else
     let bytes := d.all.foldl (fun acc seg => seg ++ acc) []
@@ -176,19 +185,20 @@ partial def loop (h : IO.FS.Stream) (d : DS) : IO Unit := do
     let cli := side == "c"
     let (gs, gr) := if cli then (d.gc, d.g) else (d.g, d.gc)
     let (ss, sr) := if cli then (d.c, d.sv) else (d.sv, d.c)
-    let (ss1, w) := appWrite gs (mkEnv ws "keys" ss.nwrites) ss (opType typ) (bytesOf sp)
+    let (k1, w) := appWrite gs (mkEnv ws "keys" ss.k.nwrites) ss.k (opType typ) (bytesOf sp)
+    let ss1 : S := { ss with k := k1 }
     let (werr, wire) := match w with
       | .ok wr => (0, wr.foldr (· ++ ·) [])
       | .error e => (e.code, [])
     let cuts := (splitNE (f "cuts") ",").map String.toNat!
-    let (sr1, racts, rerr) := feedSegs gr (mkEnv ws "bkeys" sr.nwrites) sr (cutUp wire cuts) []
+    let (sr1, racts, rerr) := feedSegs gr (mkEnv ws "bkeys" sr.k.nwrites) sr (cutUp wire cuts) []
     let back := writesOf racts
-    let pb := if back.isEmpty then (⟨ss1, [], none⟩ : PR) else parse gs (mkEnv ws "rkeys" ss1.nwrites) ss1 back
+    let pb := if back.isEmpty then (⟨ss1, [], none⟩ : PR) else parse gs (mkEnv ws "rkeys" ss1.k.nwrites) ss1 back
     IO.println s!"W werr={werr} wire={short wire} recv={showActs racts} rerr={errStr rerr} back={showActs pb.acts} berr={errStr pb.err}"
     let ss2 := pb.s
-    let down := ss2.connClosed || sr1.connClosed || rerr.isSome || pb.err.isSome
-    let ss2 := { ss2 with connClosed := down }
-    let sr1 := { sr1 with connClosed := down }
+    let down := ss2.k.connClosed || sr1.k.connClosed || rerr.isSome || pb.err.isSome
+    let ss2 : S := { ss2 with k := { ss2.k with connClosed := down } }
+    let sr1 : S := { sr1 with k := { sr1.k with connClosed := down } }
     if cli then loop h { d with c := ss2, sv := sr1 } else loop h { d with sv := ss2, c := sr1 }
   | _ => IO.println "bad-op"; loop h d
 
